@@ -5,7 +5,7 @@ from hypothesis import strategies as st
 
 from vf.core import codec
 from vf.core.base import Violation
-from vf.core.env import Env
+from vf.core.env import Env, take_rows
 from vf.core.gen import Cfg, st_program
 from vf.core.prog import (
     BuildError,
@@ -114,8 +114,8 @@ def run_case(case, stats):
             exp = memo[id(node)]
             try:
                 result = rel.engine.execute(rel)
-                got = [dict(r) for r in result]
-                again = [dict(r) for r in result] if node is prog else got
+                got = take_rows(result)
+                again = take_rows(result) if node is prog else got
             except Exception as e:
                 raise Violation("execute-raised", f"{type(e).__name__}: {e}; relation {rel}; program {fmt(node, leaves)}", exc=e)
             if got != exp:
